@@ -11,10 +11,10 @@ CHECKS = {
    text="Every bucket list of length <=3 and every observation sequence of length <=3 (thorough 4) over a 9-class f64 pool is run through 7 API paths of the real histogram code and compared with a reference; exhaustive within those bounds.",
    note="f64 values outside the pool classes, lists longer than 3; reference model in harness/src/bin/c08.rs is trusted", ref="6 C08"),
  "C05": dict(engine="enum", technique="bounded-exhaustive enumeration of label-value tuples (all of POOL^arity and all ordered pairs) on the real vectors vs. a map reference",
-   text="All tuples over an 18-string boundary-shifting pool (arity 1-3, quick: 11 strings for arity 3), 8 vector kinds incl. local variants, list and map request forms in every key order, wrong-arity/wrong-key requests and removal are executed on the real code and compared child by child with a BTreeMap reference; exhaustive within the pool.",
+   text="All tuples over an 18-string boundary-shifting pool (arity 1-3, quick: 11 strings for arity 3), 8 vector kinds incl. local variants, list and map request forms in every key order, wrong-arity/wrong-key requests, removal, and one 33-byte text cut into 2/3 consecutive values at every position are executed on the real code and compared child by child with a BTreeMap reference; exhaustive within the pool.",
    note="strings outside the pool; true 64-bit FNV collisions are out of reach", ref="6 C05"),
  "C09": dict(engine="enum", technique="bounded-exhaustive enumeration of strings in every name position, label clashes and registry settings vs. regex-equivalent predicate; gather output validated",
-   text="Every string of length <=3 over a 12-character pool in every name position of 12 constructors, all (namespace|subsystem,name) pairs, all const/variable label assignments over {a,b,le} (lists up to 3, wide shapes with 7-11 labels), registry prefix/common-label settings; each accepted metric is registered, sampled, gathered and the gathered names validated.",
+   text="Every string of length <=3 over a 12-character pool in every name position of 12 constructors, all (namespace|subsystem,name) pairs, all const/variable label assignments over {a,b,le} (lists up to 3, wide shapes with 7-11 labels), registry prefix/common-label settings, 2-3 same-name collectors told apart by a constant label under 0-2 common labels; each accepted metric is registered, sampled, gathered and the gathered names validated.",
    note="characters outside the pool, names longer than 3; common label `le` + histogram not judged", ref="6 C09"),
  "C17": dict(engine="enum", technique="bounded-exhaustive argument sweep of every Result-returning API under catch_unwind (debug assertions + overflow checks on)",
    text="Every listed fallible API is called over explicit finite argument pools (strings, label lists/maps of every cardinality class, f64 bucket lists/parameters, registry histories, families of every MetricType incl. mismatched payloads, failing writers); each call must return, and documented-invalid input must give Err.",
@@ -26,10 +26,10 @@ CHECKS = {
    text="Every history up to depth 5 (vector models 4; thorough 6/5) over the operation menus of six local-metric models (incl. drop during unwinding, negative observations, clone, remove) is replayed on fresh real objects and compared with a ledger after every step; a second BFS merges equal ledger states and reaches depth 7.",
    note="<=3 live local handles, 2 keys, fixed update amounts (incl. a negative observation)", ref="6 C12"),
  "C01": dict(engine="vsched", technique="stateless exhaustive exploration of thread interleavings (sleep sets, unbounded) of the real code under a controlled scheduler + Wing-Gong linearizability check",
-   text="For 4 counter flavours, all unordered pairs of <=2-operation programs and all triples of 1-operation programs over {inc_by, get, reset, local flush, collect, local clone+flush,...} are run under the vsched scheduler on every interleaving of their atomic/lock operations (sleep-set reduced, no preemption bound); each execution's call/return history incl. quiescent reads must be linearizable w.r.t. a sequential counter.",
+   text="For 4 counter flavours, all unordered pairs of <=2-operation programs and all triples of 1-operation programs over {inc_by, get, reset, local flush, collect, local clone+flush,...} are run under the vsched scheduler on every interleaving of their atomic/lock operations (sleep-set reduced, no preemption bound); plus contention drivers (one update against a run of five by another thread that then reads; three updaters inside the cell at once); each execution's call/return history incl. quiescent reads must be linearizable w.r.t. a sequential counter.",
    note="sequentially consistent interleavings (exact for a single atomic cell); <=3 threads, <=2 ops per thread", ref="6 C01"),
  "C11": dict(engine="vsched", technique="stateless exhaustive exploration of thread interleavings (sleep sets, unbounded) of the real code under a controlled scheduler + Wing-Gong linearizability check",
-   text="Same engine as C01 over 4 gauge flavours and the alphabet {add, sub, inc, dec, set, get, collect}: every interleaving of all program pairs (<=2 ops) and 1-op triples; histories must be linearizable w.r.t. a sequential gauge; integer gauges are additionally driven next to i64::MAX/MIN with exact wrapping arithmetic.",
+   text="Same engine as C01 over 4 gauge flavours and the alphabet {add, sub, inc, dec, set, get, collect}: every interleaving of all program pairs (<=2 ops) and 1-op triples; plus contention drivers (an update against a run ending in set/get; exactly opposite add/sub amounts from four threads); histories must be linearizable w.r.t. a sequential gauge; integer gauges are additionally driven next to i64::MAX/MIN with exact wrapping arithmetic.",
    note="sequentially consistent interleavings (exact for a single atomic cell); <=3 threads, <=2 ops per thread", ref="6 C11"),
  "C18": dict(engine="statespace", technique="exhaustive enumeration of operation histories (stateright BFS) on real timers with a virtual clock vs. exactly-once reference",
    text="Every history up to depth 5 (thorough 6; merged-state BFS to depth 7/9) of start/observe_duration/stop_and_record/stop_and_discard/drop/drop-during-unwinding/drop-on-other-thread/observe_closure_duration (durations below, on and above the largest bucket bound, pending samples in the parent local histogram) over <=3 timers of a shared and of a local histogram, interleaved with forward and backward steps of a virtual clock, is replayed on the real code; after every step the histogram must have grown by exactly one observation of max(now-start,0) or by none.",
@@ -50,13 +50,13 @@ CHECKS = {
    text="Over all subsets (size <=3, thorough 4) of a 19-collector pool incl. three same-name collectors of different kinds, prefix-colliding names and equal-help collectors of different kinds, under plain / prefixed / labelled registries, all registration and iteration orders: every sample must carry exactly the payload of its family's declared type and the type must be order-independent. The pinned tree violates this for names registered under >=2 kinds (known finding F8, no small safe repair); any other violation is reported.",
    note="known finding keyed by 'family name registered under >=2 metric kinds'", ref="6 C14"),
  "C15": dict(engine="enum", technique="bounded-exhaustive enumeration of descriptors over adversarial pools, all pairs compared by grouping, all const-label map iteration orders realised",
-   text="All ~25k descriptors over boundary-shifting name/value/help pools with <=2 constant and <=2 variable labels are built through Desc::new (constant-label map in every iteration order) and through Opts (every insertion order); id / dim_hash equality must coincide with structural-key equality over all pairs (grouping both ways), rebuilds must agree, also with other descriptors built in between (X, Y, X).",
+   text="All ~25k descriptors over boundary-shifting name/value/help pools with <=2 constant and <=2 variable labels are built through Desc::new (constant-label map in every iteration order) and through Opts (every insertion order); id / dim_hash equality must coincide with structural-key equality over all pairs (grouping both ways), rebuilds must agree, also with other descriptors built in between (X, Y, X; X, HUGE, X with keys up to 140 KB; X on a fresh thread); plus descriptors whose neighbouring key fields are one 150-byte text cut at every position.",
    note="pool strings only; genuine 64-bit collisions exempt", ref="6 C15"),
  "C04": dict(engine="enum", technique="bounded-exhaustive enumeration of families/streams/call histories through all three text entry points, read back by an independent 0.0.4 parser",
    text="Every family of a bounded adversarial generator (4 types x every float class in every float slot x 12 bucket/quantile shapes x label shapes with every string of an escape-heavy pool x timestamps), all pairs/triples of a basis as streams, very large tokens and families at every stream position, gathered registry output and encode-call histories (failing writer at every byte, refused family, repeated encode, mutate-then-re-encode) is encoded by encode / encode_utf8 / encode_to_string: identical bytes, UTF-8, append-only, and the independent parser returns exactly the encoded families.",
    note="string/float pools fixed; names valid; UNTYPED refused by the encoder (C17)", ref="6 C04"),
  "C13": dict(engine="enum", technique="bounded-exhaustive enumeration of families/streams/call histories through ProtobufEncoder, decoded by an independent wire decoder driven by proto_model.proto",
-   text="The same generator over all five metric types, streams (incl. 64+ KiB families among small ones), gathered output, refused families at every stream position and encode-call histories (failing writer at every byte offset, mutate through setters / public fields / clone then re-encode): the stream must frame exactly one length-delimited message per family and decode bit-exactly to the encoded families.",
+   text="The same generator over all five metric types, streams (incl. 64+ KiB families among small ones), a size sweep giving a family every encoded length from 40 to 16500 bytes (thorough also around 2^21), gathered output, refused families at every stream position and encode-call histories (failing writer at every byte offset, mutate through setters / public fields / clone then re-encode): the stream must frame exactly one length-delimited message per family and decode bit-exactly to the encoded families.",
    note="decoder in harness/src/pbwire.rs trusted; schema read from the repo's .proto at run time", ref="6 C13"),
  "C16": dict(engine="enum", technique="bounded-exhaustive enumeration of API scenarios, executed by one program compiled under both feature configurations; transcripts compared byte for byte",
    text="One scenario program is built twice against /repo (protobuf-backed and --no-default-features plain data model) and run over every scenario of a bounded grammar (collector subsets <=2 (thorough 3) of 13 kinds (incl. a custom collector with hand-built families) x all combinations of 5 update scripts x 5 registry configurations x re-gather after unregister); the bit-exact dumps of gather() and the TextEncoder output must be identical.",
